@@ -280,6 +280,74 @@ def edit_choice(r, execs, p=0.25):
     if any(c.kind in ('sasnap', 'sajson') for _, calls in execs for _, c in calls) or r.random() >= p:
         return None
     return r.choice(['lead', 'tail', 'gaps', 'all'])
+def scan_lines(content):
+    """the tokens bufio.ScanLines yields for a whole file: split at LF, no empty final token, ONE
+    trailing CR dropped from every token"""
+    ls = content.split(b'\n')
+    if ls and ls[-1] == b'':
+        ls.pop()
+    return [l[:-1] if l.endswith(b'\r') else l for l in ls]
+
+
+def parse_snap_scan(content, loose=False):
+    """Independent parser of a multi-entry file AS THE LINE SCANNER SEES IT (line endings LF, CR LF
+    or mixed: files checked out with core.autocrlf are well defined, the scanner drops the CR).
+    Returns the logical entries [(id, body)] in file order, or None when the lines are not of the
+    form (blank, [id], body..., ---)*.  With loose=True any number of blank / free-text lines that
+    do not start with `[` may stand between entries (hand-edited files)."""
+    if content == b'':
+        return []
+    if not content.endswith(b'\n'):
+        return None
+    ls = scan_lines(content)
+    out, i = [], 0
+    while i < len(ls):
+        if loose:
+            while i < len(ls) and not ls[i].startswith(b'['):
+                i += 1
+            if i >= len(ls):
+                break
+            hdr = ls[i]
+            i -= 1
+        else:
+            if ls[i] != b'' or i + 1 >= len(ls):
+                return None
+            hdr = ls[i + 1]
+        if not (hdr.startswith(b'[') and hdr.endswith(b']')):
+            return None
+        j = i + 2
+        while j < len(ls) and ls[j] != b'---':
+            j += 1
+        if j >= len(ls):
+            return None
+        out.append((hdr[1:-1], b'\n'.join(ls[i + 2:j])))
+        i = j + 1
+    return out
+
+
+def crlf_all(b):
+    return b.replace(b'\n', b'\r\n')
+
+
+def has_cr_eol(b):
+    """does some line of the text end in a carriage return (the documented limitation of the
+    multi-entry format: bufio.ScanLines strips it when the entry is read back)"""
+    return any(l.endswith(b'\r') for l in b.split(b'\n'))
+
+
+CRLF_MODES = ['all', 'all', 'odd', 'even']
+
+
+def crlf_ops(cfgs, mode):
+    """`fscrlf` ops converting the multi-entry file of every cfg line (standalone files are values:
+    their bytes are never touched)"""
+    seen, ops = set(), []
+    for c in cfgs:
+        p = snap_file_suffix(c)[1:]
+        if p not in seen:
+            seen.add(p)
+            ops.append('fscrlf %s %s' % (mode, hx(p)))
+    return ops
 
 
 def esc(b):
@@ -299,8 +367,11 @@ def snap_file_suffix(cfgline):
     return '/%s/%s.snap%s' % (d, fn, ext)
 
 
-def mutate_text(g, b):
-    """a text different from b, by one small edit; returns (new, tag)"""
+def mutate_text(g, b, eol=False):
+    """a text different from b, by one small edit; returns (new, tag).  eol=True also produces texts
+    that differ from b ONLY in line endings (LF <-> CR LF); only for values that are compared and
+    never stored in a multi-entry file (a CR at the end of a stored line is the documented
+    limitation of that format)"""
     r = g.r
     ls = b.split(b'\n')
     tw = [(i, t) for i, t in ((i, collide.partner(r, l)) for i, l in enumerate(ls)) if t]
@@ -311,8 +382,17 @@ def mutate_text(g, b):
         if new != ls[i]:
             return b'\n'.join(ls[:i] + [new] + ls[i + 1:]), 'twin-line:' + cls
     for _ in range(20):
-        k = r.randrange(12)
+        k = r.randrange(14 if eol else 12)
         ls = b.split(b'\n')
+        if k in (12, 13):
+            if b'\r\n' in b:
+                return (b.replace(b'\r\n', b'\n'), 'crlf-to-lf') if k == 12 else (b.replace(b'\r\n', b'\n', 1), 'one-crlf-to-lf')
+            if b'\n' in b:
+                if k == 12:
+                    return b.replace(b'\n', b'\r\n'), 'lf-to-crlf'
+                i = r.choice([j for j, x in enumerate(b) if x == 10])
+                return b[:i] + b'\r' + b[i:], 'one-lf-to-crlf'
+            continue
         if k in (10, 11):
             # cut the text right after (or before) a terminator / escape-token line: what a reader that
             # stops at a badly escaped terminator would take for the whole value
@@ -360,8 +440,8 @@ def mutate_text(g, b):
     return b + b'x', 'append'
 
 
-def mutate_call(g, c):
-    """a call of the same kind whose formatted value differs"""
+def mutate_call(g, c, eol=False):
+    """a call of the same kind whose formatted value differs (eol: see mutate_text)"""
     import json as _json
     if c.kind == 'sasnap' and g.r.random() < 0.25:
         ls = c.payload.split(b'\n')
@@ -381,9 +461,9 @@ def mutate_call(g, c):
                     return Call(c.kind, vals[1:]), 'drop-empty-first-value'
                 return Call(c.kind, [b''] + vals), 'add-empty-first-value'
             i = g.r.randrange(len(vals))
-            vals[i], tag = mutate_text(g, vals[i])
+            vals[i], tag = mutate_text(g, vals[i], eol)
             return Call(c.kind, vals), tag
-        n, tag = mutate_text(g, c.payload)
+        n, tag = mutate_text(g, c.payload, eol)
         return Call(c.kind, n), tag
     if c.kind in ('json', 'sajson'):
         try:
@@ -419,6 +499,7 @@ def gen_nest(r, execs, prob=0.35):
 def emit_nested(w, execs, nest, texec_of, per_call):
     """emit executions with nesting; per_call(i, k, cfgno, call, texec) adds the op(s) for one call"""
     nest = {i: v for i, v in nest.items() if i < len(execs) and v[0] < len(execs)}
+    nest = {i: v for i, v in nest.items() if execs[i][0] != execs[v[0]][0] and v[0] != i}      # never inside an execution of itself (shrinking shifts indices)
     hosted = {}
     for i, (host, pos) in nest.items():
         hosted.setdefault(host, []).append((pos, i))
